@@ -4,6 +4,7 @@ package bfe_tls
 
 import (
 	"crypto/ecdsa"
+	"fmt"
 	"crypto/rsa"
 	"io"
 	"net"
@@ -30,9 +31,35 @@ type verifC41Protos []string
 
 func (p verifC41Protos) Get(c *Conn) []string { return []string(p) }
 
-type verifC41Rule struct{ r *Rule }
+// ServerRule: exact match on the connection's server name, else the default rule (may be nil)
+type verifC41Rule struct {
+	def   *Rule
+	bySni map[string]*Rule
+}
 
-func (s verifC41Rule) Get(c *Conn) *Rule { return s.r }
+func (s verifC41Rule) Get(c *Conn) *Rule {
+	if r, ok := s.bySni[c.serverName]; ok {
+		return r
+	}
+	return s.def
+}
+
+type verifC41Cache map[string][]byte
+
+func (m verifC41Cache) Get(k string) ([]byte, bool)  { v, ok := m[k]; return v, ok }
+func (m verifC41Cache) Put(k string, v []byte) error { m[k] = v; return nil }
+
+type VerifC41SniRule struct {
+	Sni        string
+	Grade      string
+	Protos     []string
+	Chacha     bool
+	ClientAuth bool
+}
+type VerifC41Cert struct {
+	Name  string
+	Ecdsa bool
+}
 
 type VerifC41Config struct {
 	MinVersion, MaxVersion uint16
@@ -50,6 +77,9 @@ type VerifC41Config struct {
 	RuleProtos             []string
 	RuleChacha             bool
 	RuleClientAuth         bool
+	Rules                  []VerifC41SniRule
+	Certs                  []VerifC41Cert // NameToCertificate entries (in addition to Certificates[0])
+	CacheMode              int            // 0 no ServerSessionCache, 1 configured, 2 configured + SessionCacheDisabled
 }
 
 type VerifC41Hello struct {
@@ -66,6 +96,10 @@ type VerifC41Hello struct {
 	SVers      uint16
 	SSuite     uint16
 	SCerts     int
+	CacheKind  int // what the session cache holds under hex(SessionId): 0 nothing, 1 undecodable bytes, 2 a session
+	CVers      uint16
+	CSuite     uint16
+	CCerts     int
 }
 
 type VerifC41Result struct {
@@ -95,12 +129,49 @@ func VerifC41Negotiate(cfg *VerifC41Config, h *VerifC41Hello) VerifC41Result {
 		key = &ecdsa.PrivateKey{}
 	}
 	config.Certificates = []Certificate{{Certificate: [][]byte{{1}}, PrivateKey: key}}
+	for _, ce := range cfg.Certs {
+		var k interface{} = &rsa.PrivateKey{}
+		if ce.Ecdsa {
+			k = &ecdsa.PrivateKey{}
+		}
+		config.Certificates = append(config.Certificates, Certificate{Certificate: [][]byte{{2}}, PrivateKey: k})
+	}
+	if len(cfg.Certs) > 0 {
+		config.NameToCertificate = make(map[string]*Certificate)
+		for i, ce := range cfg.Certs {
+			config.NameToCertificate[ce.Name] = &config.Certificates[i+1]
+		}
+	}
+	if cfg.CacheMode != 0 {
+		cache := verifC41Cache{}
+		key := fmt.Sprintf("%x", h.SessionId)
+		switch h.CacheKind {
+		case 1:
+			cache[key] = []byte{1, 2, 3}
+		case 2:
+			st := &sessionState{vers: h.CVers, cipherSuite: h.CSuite, masterSecret: make([]byte, 48)}
+			for i := 0; i < h.CCerts; i++ {
+				st.certificates = append(st.certificates, []byte{byte(i)})
+			}
+			cache[key] = st.marshal()
+		}
+		config.ServerSessionCache = cache
+		config.SessionCacheDisabled = cfg.CacheMode == 2
+	}
 	for i := range config.SessionTicketKey {
 		config.SessionTicketKey[i] = byte(i + 1)
 	}
-	if cfg.HasRule {
-		config.ServerRule = verifC41Rule{&Rule{NextProtos: verifC41Protos(cfg.RuleProtos), Grade: cfg.RuleGrade,
-			ClientAuth: cfg.RuleClientAuth, Chacha20: cfg.RuleChacha}}
+	if cfg.HasRule || len(cfg.Rules) > 0 {
+		sr := verifC41Rule{bySni: map[string]*Rule{}}
+		if cfg.HasRule {
+			sr.def = &Rule{NextProtos: verifC41Protos(cfg.RuleProtos), Grade: cfg.RuleGrade,
+				ClientAuth: cfg.RuleClientAuth, Chacha20: cfg.RuleChacha}
+		}
+		for _, r := range cfg.Rules {
+			sr.bySni[r.Sni] = &Rule{NextProtos: verifC41Protos(r.Protos), Grade: r.Grade,
+				ClientAuth: r.ClientAuth, Chacha20: r.Chacha}
+		}
+		config.ServerRule = sr
 	}
 	config.serverInitOnce.Do(config.serverInit)
 
